@@ -14,6 +14,12 @@ for _o in OBLIGATIONS:
     if _o.name in ("c.get-snap1-optnull0-has1-klen0-es1", "c.release-snap0-optnull0-has0-klen2-es1"):
         _o.tier = "thorough"
 
+# b: compaction keeps every version a held snapshot can still see (smallest_snapshot = oldest held
+# snapshot, read under the mutex; real ldb_do_compaction_work)
+from obl.dbimpl_compact import compaction_obls
+_c = compaction_obls("b")
+OBLIGATIONS += [o for o in _c if o.tier == "quick" and "snaps2" in o.name][:3] + [o for o in _c if o.tier != "quick"][:2]
+
 META = {
     "level": "model_checking",
     "level_text": "Bounded model checking (CBMC) of the real snapshot list (src/snapshot.h, from an arbitrary well-formed sorted list of <=3 nodes) and of the real ldb_get / ldb_has / ldb_snapshot / ldb_release / ldb_iterator / ldb_internal_iterator (db_impl.c #included, real ldb_lkey_init) with monitoring stubs below and an environment that replaces mem, imm, the current version, last_sequence and the other snapshots whenever the calling thread does not hold db->mutex: a read that is given a snapshot searches with exactly that snapshot's sequence (decoded from the lookup-key bytes / the argument of ldb_dbiter_create), a read without one uses last_sequence of its own critical section; ldb_snapshot links a node carrying last_sequence read under the mutex; ldb_release unlinks and frees exactly that node; taking or releasing other snapshots never changes a held node's sequence or position; oldest == minimum.",
